@@ -584,6 +584,22 @@ func (m *roundsMonitor) After(c *Chain, w *World, br *BlockResult, outs []TxOutc
 		}
 	}
 
+	// ------------------------------------------------------------ (f) one open round per query
+	// a report enters "the" open round of its query: after a block no query has two rounds whose window is still open
+	for q, rs := range cur.Rounds {
+		open := 0
+		var ids []uint64
+		for _, r := range rs {
+			if r.Exp > h {
+				open++
+				ids = append(ids, r.ID)
+			}
+		}
+		if open > 1 {
+			return pbt.Violf("C07/round/two-open-rounds", "after block %d query %.12s has %d rounds with an open window (ids %v): reports of one query are split over parallel rounds", h, q, open, ids)
+		}
+	}
+
 	// ------------------------------------------------------------ (e) rotation
 	if c07HasEvent(br, "cyclelist_updated") > 0 {
 		m.govListUpdates++
@@ -778,7 +794,7 @@ func genLongDeposit(rt *rapid.T) History {
 		h.Blocks = append(h.Blocks, b)
 	}
 	delta := []int{-1, 0, 0, 0, 1}[uni(rt, "delta", 5)]
-	b := Block{Gap: GapSpec{Kind: 2}, Idle: 1999 - n1 + delta, Ops: subs("edge", 1, 2)}
+	b := Block{Gap: GapSpec{Kind: 2}, Idle: 1999 - n1 + delta, Ops: subs("edge", 1, 3)}
 	if uni(rt, "edgeTip", 8) == 0 {
 		b.Ops = append([]Op{{K: OpTip, A: uni(rt, "tipper2", nActors), R: [3]int{dep, 8, 0}, Amt: Amount{Kind: AmtAbs, N: 1_000_000}}}, b.Ops...)
 	}
